@@ -168,6 +168,9 @@ def from_model(sort, v, spec=None, name=None):
         if build is None:
             raise ValueError(f"no native_build for object parameter {name}")
         return build({k: from_model(s, v.get(k)) for k, s in sort.fields.items()})
+    build = (spec or {}).get("native_build", {}).get(name)
+    if build is not None:
+        return build(v)  # opaque parameters: the contract module says how a concrete value is made
     raise ValueError(f"cannot build native value for {sort!r}")
 
 
@@ -215,6 +218,7 @@ def check(spec, args):
     dotted = spec["module"][:-3].replace("/", ".")
     glob = dict(vars(importlib.import_module(dotted[:-9] if dotted.endswith(".__init__") else dotted)))
     glob.update(HELPERS)
+    glob.update(spec.get("native_helpers") or {})  # native meaning of uninterpreted spec functions (ufr / ufo names)
     genv = dict(wenv)
     for gname, gexpr in (spec.get("ghost") or {}).items():
         try:
